@@ -563,6 +563,11 @@ def find(req):
                         "inputs": {"xml": xml_of(d), "tree": d}, "expected": bad[1], "observed": bad[2], "tried": tried}
         which = "all"
     if which == "all":
+        bad = greek_check(m)                     # every mapped symbol, alone and inside a run
+        if bad is not None:
+            d = E("oMath", run(bad[3]))
+            return {"reproduced": True, "target": "omml_to_latex.py::convert_greek_and_symbols", "check": bad[0],
+                    "inputs": {"text": bad[3], "xml": xml_of(d), "tree": d}, "expected": bad[1], "observed": bad[2]}
         mm = validate_model(itertools.islice(scope(seed, budget=50), 0, 4000))
         if mm is not None:
             return {"reproduced": False, "note": "MODEL-MISMATCH (assumed library model contradicted natively): " + mm}
